@@ -383,5 +383,5 @@ func runC10(c C10Case) *Result {
 }
 
 func TestC10(t *testing.T) {
-	runSpec(t, Spec[C10Case]{ID: "C10", Gen: genC10, Run: runC10})
+	runSpec(t, Spec[C10Case]{ID: "C10", Gen: genC10, Run: runC10, Pre: preScaleC10})
 }
